@@ -294,15 +294,23 @@ func spawn(j job) ([]byte, error) {
 	b, _ := json.Marshal(j)
 	f.Write(b)
 	f.Close()
-	cmd := exec.Command(os.Args[0], "--worker", f.Name())
-	cmd.Env = append(os.Environ(), "GOMAXPROCS=2")
-	var out, errb bytes.Buffer
-	cmd.Stdout = &out
-	cmd.Stderr = &errb
-	if err := cmd.Run(); err != nil {
-		return out.Bytes(), fmt.Errorf("%v: %s", err, tail(errb.String(), 2000))
+	// a worker that cannot be started or is killed from outside (the machine is shared and at times heavily
+	// overloaded) is started again, twice at most; a worker that fails by itself fails every time
+	var lastErr error
+	for attempt := 0; attempt < 3; attempt++ {
+		cmd := exec.Command(os.Args[0], "--worker", f.Name())
+		cmd.Env = append(os.Environ(), "GOMAXPROCS=2")
+		var out, errb bytes.Buffer
+		cmd.Stdout = &out
+		cmd.Stderr = &errb
+		err := cmd.Run()
+		if err == nil {
+			return out.Bytes(), nil
+		}
+		lastErr = fmt.Errorf("%v: %s", err, tail(errb.String(), 2000))
+		time.Sleep(200 * time.Millisecond)
 	}
-	return out.Bytes(), nil
+	return nil, lastErr
 }
 
 func tail(s string, n int) string {
